@@ -303,3 +303,33 @@ package websocket
 //@   ensures [once] old(s.state) == StateClosedByUs ==> result == sonicerrors.ErrCancelled && len(s.pendingFrames) == n0 && !flushing && s.state == old(s.state)
 //@   ensures [over] old(s.state) != StateActive && old(s.state) != StateClosedByUs && old(s.state) != StateHandshake ==>
 //@           result == io.EOF && len(s.pendingFrames) == n0 && !flushing && s.state == old(s.state)
+
+// --- the read side gate (C08: end of stream after the closing handshake, 1006 on a lost transport) ---
+
+// What the connection hands up is a frame the decoder produced. That such a frame is exactly
+// header + declared payload is the [frame] postcondition of FrameCodec.Decode (property C07);
+// the generic ReadNext loop between the two is not under contract, so the link is assumed here.
+//@ func ext:errors.Is
+//@   trusted
+//@   ensures err == nil && target != nil ==> !result
+//@   modifies nothing
+
+//@ func (*Stream).nextFrame
+//@   prop C08
+//@   requires qInv(s) && s.codecConn != nil && (s.state == StateActive || s.state == StateClosedByUs) && (s.role == RoleClient || s.role == RoleServer)
+//@   assume after call ReadNext: result1 == nil ==> len(result0) >= 2 && frameWF(result0)
+//@   remember after call ReadNext: lost = result1 == io.EOF
+//@   remember after call ReadNext: got = result1 == nil
+//@   // an unexpected end of the transport is surfaced as an abnormal closure: a Close frame with code 1006, state terminated
+//@   ensures [abnormal] lost ==> err == io.EOF && s.state == StateTerminated && len(f) == 4 && f[0] == 136 && f[1] == 2 &&
+//@           int(f[2])*256 + int(f[3]) == 1006 && len(s.pendingFrames) == old(len(s.pendingFrames))
+//@   // any other transport error is passed up unchanged, nothing is queued
+//@   ensures [error] !lost && !got ==> err != nil && s.state == old(s.state) && len(s.pendingFrames) == old(len(s.pendingFrames))
+
+//@ func (*Stream).NextFrame
+//@   prop C08
+//@   requires s.codecConn != nil && (s.role == RoleClient || s.role == RoleServer)
+//@   remember after call (*Stream).Flush: flushOK = result == nil
+//@   // reads go on only while the stream is open or we are waiting for the peer's Close
+//@   assert call (*Stream).nextFrame: s.state == StateActive || s.state == StateClosedByUs
+//@   ensures [end-of-stream] flushOK && old(s.state) != StateActive && old(s.state) != StateClosedByUs ==> err == io.EOF
